@@ -526,3 +526,33 @@ Qed.
 
 Lemma proposed_marks st b c : In c b -> is_dup (seqs (proposed st b)) c = true.
 Proof. intros H. exact (marks_mark_all b (seqs st) c H). Qed.
+
+(* k waiting / successive Gets are k OGet operations of a run *)
+Lemma gets_run k : forall t,
+  let t' := fold_left trace_step (repeat OGet k) t in
+  fst (gets k (t_state t)) = t_state t' /\
+  t_out t' = t_out t ++ snd (gets k (t_state t)) /\
+  t_acc t' = t_acc t.
+Proof.
+  induction k as [|k IH]; intros t; cbn -[get].
+  - rewrite app_nil_r. auto.
+  - destruct t as [st acc out]. cbn -[get]. destruct (get st) as [st' r] eqn:G.
+    specialize (IH (mkTrace st' acc (match r with GBatch b => out ++ [b] | _ => out end))).
+    cbn -[get] in IH. destruct (gets k st') as [st'' bs] eqn:E. cbn -[get] in *.
+    destruct IH as (H1 & H2 & H3). repeat split; auto.
+    rewrite H2. destruct r; auto. rewrite <- app_assoc. reflexivity.
+Qed.
+
+Theorem gets_of_run bs ops k :
+  let t' := run bs (ops ++ repeat OGet k) in
+  fst (gets k (t_state (run bs ops))) = t_state t' /\
+  t_out t' = t_out (run bs ops) ++ snd (gets k (t_state (run bs ops))) /\
+  t_acc t' = t_acc (run bs ops).
+Proof. unfold run. rewrite fold_left_app. apply gets_run. Qed.
+
+Theorem contains_dup_spec st b :
+  contains_dup st b = true <-> exists c, In c b /\ cmd_seq c <= seq_of (seqs st) (cmd_client c).
+Proof.
+  unfold contains_dup. rewrite existsb_exists. unfold is_dup.
+  split; intros (c & H1 & H2); exists c; split; auto; lia.
+Qed.
